@@ -687,6 +687,98 @@ RULES["R61"] = rule_R61
 RULE_DOC["R61"] = rule_R61.__doc__.strip()
 
 
+def rule_R71(src, stats):
+    """statement `let PAT: TY = E.filter(|P| C).map(|Q| R).collect();` (adapter chain on a crate iterator; exactly this shape, checked
+    token by token; C and R expressions without `return`/`?`) ->
+    `let mut vx_vN = Vec::new(); let mut vx_fN = E; loop { match vx_fN.next() { Some(vx_eN) => { let vx_kN = { let P = &vx_eN; C };
+    if vx_kN { let Q = vx_eN; vx_vN.push(R); } } None => { break; } } } let PAT: TY = vx_vN;`   (N = ordinal of the rewritten statement).
+    This is the definition of Filter::next / Map::next / Vec::from_iter unrolled: the predicate sees a reference to each element, the
+    mapping consumes the elements that pass, results are pushed in iteration order.  Verus has no model of iterator adapter chains.
+    The new `loop` counts as a loop for `#!! loop N`."""
+    n = 0
+    while True:
+        code = _toks(src)
+        tx = [t.text for t in code]
+        hit = False
+        for i in range(len(code)):
+            if tx[i] != "let" or code[i].kind != "ident":
+                continue
+            # let PAT : TY = ... ;  (statement end = first `;` at depth 0)
+            d, k, eq = 0, i + 1, None
+            while k < len(code):
+                t = tx[k]
+                if t in ("(", "[", "{"):
+                    d += 1
+                elif t in (")", "]", "}"):
+                    if d == 0:
+                        break
+                    d -= 1
+                elif d == 0 and t == "=" and eq is None and not (tx[k + 1] in ("=", ">") and code[k].end == code[k + 1].start) \
+                        and not (tx[k - 1] in ("=", "!", "<", ">", "+", "-", "*", "/", "|", "&", "^", "%") and code[k - 1].end == code[k].start):
+                    eq = k
+                elif d == 0 and t == ";":
+                    break
+                k += 1
+            if eq is None or k >= len(code) or tx[k] != ";":
+                continue
+            semi = k
+            # tail must be  ) . collect ( ) ;
+            if tx[semi - 4:semi] != [".", "collect", "(", ")"] or tx[semi - 5] != ")":
+                continue
+            map_close = semi - 5
+            map_open = next((j for j in range(map_close, eq, -1) if match_close_safe(code, j) == map_close), None)
+            if map_open is None or tx[map_open - 2:map_open] != [".", "map"] or tx[map_open - 3] != ")":
+                continue
+            fil_close = map_open - 3
+            fil_open = next((j for j in range(fil_close, eq, -1) if match_close_safe(code, j) == fil_close), None)
+            if fil_open is None or tx[fil_open - 2:fil_open] != [".", "filter"]:
+                continue
+
+            def closure(lo, hi):
+                # tokens lo..hi (exclusive) must be `| PARAM | BODY`; returns (param_text, body_text)
+                if tx[lo] != "|":
+                    return None
+                dd, j = 0, lo + 1
+                while j < hi:
+                    if tx[j] in ("(", "[", "{"):
+                        dd += 1
+                    elif tx[j] in (")", "]", "}"):
+                        dd -= 1
+                    elif tx[j] == "|" and dd == 0:
+                        break
+                    j += 1
+                if j >= hi - 1:
+                    return None
+                body = tx[j + 1:hi]
+                if "return" in body or "?" in body:
+                    return None
+                return src[code[lo + 1].start:code[j - 1].end], src[code[j + 1].start:code[hi - 1].end]
+            cf = closure(fil_open + 1, fil_close)
+            cm = closure(map_open + 1, map_close)
+            if cf is None or cm is None:
+                continue
+            n += 1
+            e_ = src[code[eq + 1].start:code[fil_open - 3].end]
+            head = src[code[i].start:code[eq].end]
+            new = ("let mut vx_v%d = Vec::new(); let mut vx_f%d = %s; loop { match vx_f%d.next() { Some(vx_e%d) => { "
+                   "let vx_k%d = { let %s = &vx_e%d; %s }; if vx_k%d { let %s = vx_e%d; vx_v%d.push(%s); } } None => { break; } } } "
+                   "%s vx_v%d;" % (n, n, e_, n, n, n, cf[0], n, cf[1], n, cm[0], n, n, cm[1], head, n))
+            src = _replace_spans(src, [(code[i].start, code[semi].end, new)])
+            stats["R71"] = stats.get("R71", 0) + 1
+            hit = True
+            break
+        if not hit:
+            return src
+
+
+def match_close_safe(code, j):
+    return match_close(code, j) if code[j].text in ("(", "[", "{") else None
+
+
+RULES["R71"] = rule_R71
+RULE_DOC["R71"] = rule_R71.__doc__.strip()
+
+
 # --------------------------------------------------------------------------- unit parsing
 
 class FnSpec:
@@ -755,7 +847,11 @@ def parse_unit(path):
             elif w[0] == "feature":
                 unit.setdefault("features", []).append(w[1]); cur = None
             elif w[0] == "raw":
-                cur = ("raw", {"line": lineno}); unit["parts"].append(cur)
+                rid = None
+                for x in w[1:]:
+                    if x.startswith("id="):
+                        rid = x[3:]
+                cur = ("raw", {"line": lineno, "id": rid}); unit["parts"].append(cur)
             elif w[0] == "consts":
                 cur = ("consts", {"file": w[1], "names": w[2:]}); unit["parts"].append(cur)
             elif w[0] == "item":
@@ -1022,8 +1118,24 @@ def build(unit_path, prelude_paths, canary=False):
     emit("use vstd::prelude::*;\nuse vstd::std_specs::iter::IteratorSpec;\nuse std::collections::{BTreeMap, BTreeSet, VecDeque};\nuse std::borrow::Cow;\nuse std::cmp::Ordering;\nverus! {\n", {"origin": "gen"})
     for p in prelude_paths:
         emit(open(p).read() + "\n", {"origin": "prelude", "file": p})
+    seen = set()   # de-duplication across `#! use` imports: consts / items / fn stubs by name, raw parts by id=
+
     def process(unit, unit_path, stub):
         for kind, part in unit["parts"]:
+            if kind == "raw" and part.get("id"):
+                if ("raw", part["id"]) in seen:
+                    continue
+                seen.add(("raw", part["id"]))
+            if kind == "item":
+                if ("item", part["name"]) in seen:
+                    continue
+                seen.add(("item", part["name"]))
+            if kind == "fn":
+                if ("fn", part.file, part.name) in seen:
+                    if stub:
+                        continue
+                    raise ExtractError("function %s::%s is both imported as a stub and listed for proof" % (part.file, part.name))
+                seen.add(("fn", part.file, part.name))
             if kind == "specs":
                 sub_path = os.path.join(os.path.dirname(unit_path), part["unit"] + ".vu")
                 emit("// ---- spec items copied verbatim from unit %s: %s ----\n" % (part["unit"], " ".join(part["names"])), {"origin": "gen"})
@@ -1040,7 +1152,8 @@ def build(unit_path, prelude_paths, canary=False):
                 src, items = items_of(part["file"])
                 names = part["names"]
                 for it in items:
-                    if it.kind == "const" and (it.name in names or names == ["*"]):
+                    if it.kind == "const" and (it.name in names or names == ["*"]) and ("const", it.name) not in seen:
+                        seen.add(("const", it.name))
                         if names == ["*"] and re.search(r"&str|char|\[", it.text):
                             continue
                         t = rule_R0(it.text, stats)
